@@ -51,6 +51,10 @@ func workloads() map[string]families.Workload {
 		for _, w := range families.BigPageWorkloads(families.Codecs3()) {
 			wlCache[w.Name] = w
 		}
+		// pages of exactly 32 768 plain bytes
+		for _, w := range families.Pow2PageWorkloads(families.Codecs3()) {
+			wlCache[w.Name] = w
+		}
 	}
 	return wlCache
 }
@@ -137,7 +141,16 @@ func run(c *fw.Ctx) {
 				}
 			}
 			// (1) fixed chunk sizes, (4) each with data-with-EOF
-			if strings.HasSuffix(name, "/bigpage") {
+			if strings.HasSuffix(name, "/pow2page") {
+				if br {
+					continue
+				}
+				for _, ch := range []int{1, 7, 4096, 32768, 32769} {
+					try(fmt.Sprintf("br%v|chunk%d", br, ch), env.SourcePlan{Chunk: ch})
+					try(fmt.Sprintf("br%v|chunk%d|eofdata", br, ch), env.SourcePlan{Chunk: ch, EOFWithData: true})
+				}
+				continue
+			} else if strings.HasSuffix(name, "/bigpage") {
 				// 2.6 MB page: a menu of chunk sizes, then the single deviations below
 				for _, ch := range []int{7, 4096, 32768, 65536, 65537, 1000003, 1 << 20, 1<<20 + 1, 2 << 20} {
 					try(fmt.Sprintf("br%v|chunk%d", br, ch), env.SourcePlan{Chunk: ch})
